@@ -162,3 +162,96 @@ def normalise(rel, fn, qual):
         if isinstance(n, ast.Name) and n.id in ok:
             n.id = ok[n.id]
     return ok
+
+
+# ---------------------------------------------------------------------------------------------------------
+# temporaries that the reference tree does not have: `tmp = <pure expr>` immediately followed by the only
+# statement that reads `tmp` is the same computation as that statement with the expression written in place
+PURE_CALL_ROOTS = {"np", "numpy", "math", "len", "range", "min", "max", "abs", "int", "float", "slice", "tuple", "list"}
+
+
+PURE_METHODS = {"conj", "conjugate", "copy", "flatten", "ravel", "reshape", "transpose", "astype", "sum", "min", "max", "any", "all",
+                "index", "count", "Get_size", "Get_rank", "keys", "values", "items", "get", "dot", "mean", "prod", "cumsum", "tolist"}
+
+
+def _pure(e):
+    for n in ast.walk(e):
+        if isinstance(n, ast.Call):
+            f = n.func
+            root = f
+            while isinstance(root, ast.Attribute):
+                root = root.value
+            pure_method = isinstance(f, ast.Attribute) and f.attr in PURE_METHODS
+            if not (isinstance(root, ast.Name) and root.id in PURE_CALL_ROOTS) and not pure_method:
+                return False
+        elif isinstance(n, (ast.Lambda, ast.ListComp, ast.GeneratorExp, ast.DictComp, ast.SetComp, ast.Yield, ast.Await, ast.NamedExpr,
+                            ast.Starred)):
+            return False
+    return True
+
+
+class _Subst(ast.NodeTransformer):
+    def __init__(self, name, expr):
+        self.name, self.expr, self.n = name, expr, 0
+
+    def visit_Name(self, node):
+        if node.id == self.name and isinstance(node.ctx, ast.Load):
+            self.n += 1
+            new = ast.parse(ast.unparse(self.expr), mode="eval").body
+            for x in ast.walk(new):
+                ast.copy_location(x, node)
+            return new
+        return node
+
+
+def inline_new_temps(rel, fn, qual):
+    """-> names inlined"""
+    ref = load_table().get(rel, {}).get(qual)
+    if ref is None or has_nested_scope(fn):
+        return []
+    ref_names = {r[0] for r in ref}
+    cur = bindings(fn)
+    if len(cur) <= len(ref_names) and {c[0] for c in cur} <= ref_names:
+        return []
+    done = []
+    changed = True
+    while changed:
+        changed = False
+        loads, stores = {}, {}
+        for n in ast.walk(fn):
+            if isinstance(n, ast.Name):
+                (stores if isinstance(n.ctx, ast.Store) else loads).setdefault(n.id, []).append(n)
+        for node in ast.walk(fn):
+            for f in ("body", "orelse", "finalbody"):
+                blk = getattr(node, f, None)
+                if not isinstance(blk, list):
+                    continue
+                for k in range(len(blk) - 1):
+                    st, nxt = blk[k], blk[k + 1]
+                    if not (isinstance(st, ast.Assign) and len(st.targets) == 1 and isinstance(st.targets[0], ast.Name)):
+                        continue
+                    nm = st.targets[0].id
+                    if nm in ref_names or len(stores.get(nm, [])) != 1 or len(loads.get(nm, [])) != 1 or not _pure(st.value):
+                        continue
+                    use = loads[nm][0]
+                    if not any(use is x for x in ast.walk(nxt)) or isinstance(nxt, (ast.For, ast.While, ast.FunctionDef, ast.ClassDef)):
+                        continue
+                    # the next statement must not assign anything the expression reads before using it (single statement: only
+                    # its own targets, evaluated after the value) - safe for Assign/AugAssign/Expr/Return/If-test
+                    if isinstance(nxt, ast.If):
+                        if not any(use is x for x in ast.walk(nxt.test)):
+                            continue
+                        nxt.test = _Subst(nm, st.value).visit(nxt.test)
+                    elif isinstance(nxt, (ast.Assign, ast.AugAssign, ast.Expr, ast.Return, ast.Assert)):
+                        blk[k + 1] = _Subst(nm, st.value).visit(nxt)
+                    else:
+                        continue
+                    del blk[k]
+                    done.append(nm)
+                    changed = True
+                    break
+                if changed:
+                    break
+            if changed:
+                break
+    return done
